@@ -64,6 +64,21 @@ def search_plan(seed):
     return [("C03", seed + 100 + k, 1500, []) for k in range(3)]
 
 
+SEP = " ##C03 "
+
+
+def compare(c):
+    """the driver appends its row counts to the model's CSV (after SEP); the CSV itself must be byte-identical"""
+    return (c.model or "").split(SEP)[0] == c.observed
+
+
+def _counts(c):
+    parts = (c.model or "").split(SEP)
+    if len(parts) < 2:
+        return {}
+    return {k: int(v) for k, v in (kv.split("=") for kv in parts[1].split())}
+
+
 def nontrivial(c):
     if not c.observed.startswith("OK "):
         return False
@@ -72,11 +87,30 @@ def nontrivial(c):
 
 
 def distribution(cases):
-    d = {"ok": 0, "err": 0, "from_set": 0, "close": 0, "intervals": {}}
+    d = {"ok": 0, "err": 0, "from_set": 0, "close": 0, "intervals": {}, "with_mapping": 0, "with_remap": 0,
+         "mapped_reports": 0,
+         # rows of the A/L section the spec verdict evaluated / left out (see drv_c03.ml):
+         "rows_checked_plain": 0, "rows_checked_aggregated_or_moved": 0, "cases_with_aggregated_rows_checked": 0,
+         "rows_not_printed_checked_as_zero": 0, "rows_skipped_ambiguous_name": 0, "rows_skipped_no_source": 0,
+         "rows_skipped_source_not_AL": 0, "expectations_undefined": 0, "reports_rows_located_by_path": 0}
     for c in cases:
-        d["ok" if c.observed.startswith("OK") else "err"] += 1
+        ok = c.observed.startswith("OK")
+        d["ok" if ok else "err"] += 1
         cfg = dict(kv.split("=", 1) for kv in c.input.split(" | ")[0].split())
         d["from_set"] += cfg["from"] != "-"
         d["close"] += cfg["close"] == "1"
         d["intervals"][cfg["iv"]] = d["intervals"].get(cfg["iv"], 0) + 1
+        d["with_mapping"] += cfg["map"] != "-"
+        d["with_remap"] += cfg["remap"] != "-"
+        d["mapped_reports"] += ok and (cfg["map"] != "-" or cfg["remap"] != "-")
+        k = _counts(c)
+        d["rows_checked_plain"] += k.get("plain", 0)
+        d["rows_checked_aggregated_or_moved"] += k.get("mapped", 0)
+        d["cases_with_aggregated_rows_checked"] += k.get("mapped", 0) > 0
+        d["rows_not_printed_checked_as_zero"] += k.get("absent", 0)
+        d["rows_skipped_ambiguous_name"] += k.get("ambiguous", 0)
+        d["rows_skipped_no_source"] += k.get("nosrc", 0)
+        d["rows_skipped_source_not_AL"] += k.get("nonal", 0)
+        d["expectations_undefined"] += k.get("undefined", 0)
+        d["reports_rows_located_by_path"] += k.get("bypath", 0)
     return d
